@@ -147,7 +147,7 @@ def cases(tier, seed):
             out.append(Case("lpc:m=%d:p=%d" % (m, p), case_lpc, dict(m=m, p=p), timeout=120 if q else 600,
                             max_paths=16, feas_timeout=3))
     from .common import case_buffer_reuse, Call as _Call
-    for N, p, cplx in ([(3, 1, False), (3, 2, False), (3, 1, True)] if q else [(3, 1, False), (3, 2, False), (4, 2, False), (3, 1, True), (3, 2, True)]):
+    for N, p, cplx in ([(3, 1, False), (3, 2, False), (2, 1, True)] if q else [(3, 1, False), (3, 2, False), (4, 2, False), (2, 1, True), (3, 1, True)]):
         out.append(Case("buffer-reuse:aryule:%s:N=%d:p=%d" % ('cx' if cplx else 're', N, p), case_buffer_reuse,
                         dict(call=_Call('aryule', p), N=N, cplx=cplx, tag="aryule"), timeout=120 if q else 600, max_paths=16,
                         feas_timeout=3, wall=500 if q else 2400))
